@@ -23,7 +23,7 @@ Good(P) == LET w == Recompose(P) IN InLang(FullTy(Fam), w) /\ Parts(w) = P
 
 UrisA == TLCEval({Recompose(P) : P \in {X \in {MkParts(s, a, Join(ab, p), qf[1], qf[2]) :
                 s \in {sS, tT}, a \in {NULL, hH}, ab \in BOOLEAN, p \in SeqsUpTo(VocA, SegsA),
-                qf \in {<<NULL, NULL>>, <<qQ, fF>>}} : Good(X)}})
+                qf \in {<<NULL, NULL>>, <<qQ, fF>>, <<NULL, fF>>, <<qQ, NULL>>}} : Good(X)}})
 UrisB == TLCEval({Recompose(P) : P \in {X \in {MkParts(sS, a, Join(ab, p), q, NULL) :
                 a \in {NULL, hH, gG}, ab \in BOOLEAN, p \in SeqsUpTo(VocB, SegsB), q \in {NULL, qQ}} : Good(X)}})
 
